@@ -134,6 +134,7 @@ def run(ctx):
         c.ob("R5", same, preds[1], "active-predicates-agree", "matches(), stateIn and PureSnapshot.matches() use one predicate" if same else
              f"the 'state is active' predicates differ: {forms}", preds[1].node)
     shared.eligible_bucket_rules(ctx, "R11", "guard")
+    shared.none_is_the_only_absence(ctx, "R12", [("BaseInterpreter", "_call_with_optional_params", "params")])
     # ---- R12 declared params are withheld from a guard only when there are none, or the guard cannot take them ----
     from sa.util import canon_atom as _ca, in_handler as _inh
     cw = p.method("BaseInterpreter", "_call_with_optional_params")
